@@ -40,6 +40,36 @@ CHECKS = {
         design="4 C06"),
 }
 
+CHECKS.update({
+    "C07": dict(
+        text="TLC checks the incremental parent-ready tracker against the declarative relation (ReadySound, "
+             "ReadyComplete, PRInputsJustified/Complete, AnnouncedInQuery, AtMostOnce) over every delivery order of "
+             "consistent certificate universes spanning two windows (exhaustive) and three windows (simulation), "
+             "interleaved with block registrations, finalization-driven pruning and waiter registration; every "
+             "transition is replayed into PoolImpl comparing ParentReady events, parents_ready() and woken waiters.",
+        note="certificate universes consistent with <20% Byzantine stake; ties inside one finalization step are "
+             "compared as 'one of'; " + TB,
+        technique="TLA+ spec + TLC exhaustive BFS and simulation + spec->code transition replay",
+        design="4 C07"),
+    "C08": dict(
+        text="TLC checks FinalizedIff, HighestIsFinalized, WatermarkDecided, AncestorsFinalized, RetainedBounded and "
+             "bound verdicts over every delivery order of certificates / block-parent registrations (final before "
+             "notar, children before parents, gaps, certificates for implicitly decided slots); every transition is "
+             "replayed into PoolImpl comparing finalized_slot, the watermark, per-slot finality status, retained "
+             "slots and held certificates after every step.",
+        note="certificate universes consistent with <20% Byzantine stake; " + TB,
+        technique="TLA+ spec + TLC exhaustive BFS and simulation + spec->code transition replay",
+        design="4 C08"),
+    "C18": dict(
+        text="recover_from_standstill is a transition enabled in every model state: TLC checks BundleProvesFinalized "
+             "and FreshPoolCatchesUp (a fresh pool fed only the bundle reaches the same highest slot and ready parents); "
+             "the replay invokes it after every prefix of every history, validates every bundled certificate and vote "
+             "as a receiver would, feeds them to a second fresh PoolImpl and compares.",
+        note="Votor's forwarding of the bundle is covered by the Votor model (C05); " + TB,
+        technique="TLA+ spec + TLC exhaustive BFS and simulation + spec->code transition replay",
+        design="4 C18"),
+})
+
 NOT_YET = {
     "C01": "check not built yet in this round (abstract protocol model + simulator planned, DESIGN 4 C01)",
     "C02": "check not built yet in this round (DESIGN 4 C02)",
